@@ -16,25 +16,48 @@ _incarnations = [0]
 
 
 class Proc:
-    def __init__(self, proc_id, job, gate_root, seed_hex):
+    def __init__(self, proc_id, job, gate_root, seed_hex, nworkers=0, template=None):
         self.id = proc_id
         self.job = job
+        self.foreign_pid = None
         # every simulated process of a run is a new incarnation: its pid and its random stream (uuid4, temporary
         # names) differ from those of every earlier process, as they would on a real machine - deterministically
         _incarnations[0] += 1
         inc = _incarnations[0]
-        p2c_r, p2c_w = os.pipe()
-        c2p_r, c2p_w = os.pipe()
-        pid = os.fork()
-        if pid == 0:
-            os.close(p2c_w)
-            os.close(c2p_r)
-            child_main(p2c_r, c2p_w, proc_id, job, gate_root, seed_hex, inc)
-        os.close(p2c_r)
-        os.close(c2p_w)
-        self.pid = pid
-        self.chan = Channel(c2p_r, p2c_w)
-        self.state = "running"   # running | parked | done | killed | crashed
+        if template is not None:
+            # forked from a live simulated process (it inherits that process's memory image)
+            slot = template.next_slot
+            template.next_slot += 1
+            c2p_r, p2c_w = template.worker_ends[slot]
+            template.chan.send(("fork", slot, proc_id, inc, job))
+            self.pid = None
+            self.chan = Channel(c2p_r, p2c_w)
+        else:
+            p2c_r, p2c_w = os.pipe()
+            c2p_r, c2p_w = os.pipe()
+            child_ends, self.worker_ends = [], []
+            for _ in range(nworkers):
+                w_p2c_r, w_p2c_w = os.pipe()
+                w_c2p_r, w_c2p_w = os.pipe()
+                child_ends.append((w_p2c_r, w_c2p_w))
+                self.worker_ends.append((w_c2p_r, w_p2c_w))
+            self.next_slot = 0
+            pid = os.fork()
+            if pid == 0:
+                os.close(p2c_w)
+                os.close(c2p_r)
+                for (r, w) in self.worker_ends:
+                    os.close(r)
+                    os.close(w)
+                child_main(p2c_r, c2p_w, proc_id, job, gate_root, seed_hex, inc, child_ends)
+            os.close(p2c_r)
+            os.close(c2p_w)
+            for (r, w) in child_ends:
+                os.close(r)
+                os.close(w)
+            self.pid = pid
+            self.chan = Channel(c2p_r, p2c_w)
+        self.state = "running"   # running | parked | done | killed | crashed | forkserver
         self.parked_at = None
         self.ngates = 0
         self.results = {}        # op index -> outcome
@@ -51,6 +74,26 @@ class Proc:
     def kill(self):
         if self.state in ("done", "killed", "crashed") and self.pid is None:
             return
+        if self.foreign_pid is not None:
+            # a worker forked by a template: not our child (the template ignores SIGCHLD, the kernel reaps it)
+            try:
+                os.kill(self.foreign_pid, signal.SIGKILL)
+            except ProcessLookupError:
+                pass
+            t0 = time.time()
+            while time.time() - t0 < 5.0:
+                try:
+                    os.kill(self.foreign_pid, 0)
+                except ProcessLookupError:
+                    break
+                try:
+                    with open(f"/proc/{self.foreign_pid}/stat") as f:
+                        if f.read().rsplit(")", 1)[1].split()[0] == "Z":
+                            break
+                except OSError:
+                    break
+                time.sleep(0.001)
+            self.foreign_pid = None
         if self.pid is not None:
             try:
                 os.kill(self.pid, signal.SIGKILL)
@@ -63,10 +106,21 @@ class Proc:
                 os.close(fd)
             except OSError:
                 pass
+        self._close_unused()
         if self.state not in ("done", "crashed"):
             self.state = "killed"
 
+    def _close_unused(self):
+        for (r, w) in getattr(self, "worker_ends", [])[getattr(self, "next_slot", 0):]:
+            for fd in (r, w):
+                try:
+                    os.close(fd)
+                except OSError:
+                    pass
+        self.worker_ends = []
+
     def reap(self):
+        self._close_unused()
         if self.pid is not None:
             os.waitpid(self.pid, 0)
             self.pid = None
@@ -84,6 +138,7 @@ class Sim:
         self.gate_root = gate_root
         self.seed_hex = seed_hex
         self.procs = []
+        self.templates = []
         self.seq = 0
         self.trace = []          # (seq, proc id, op, args) for every released gate and every event
         self.wall = 1_700_000_000.0
@@ -96,6 +151,21 @@ class Sim:
         p = Proc(len(self.procs), job, self.gate_root, self.seed_hex)
         self.procs.append(p)
         self._run_until_parked(p)   # parks at the "start" gate
+        return p
+
+    def spawn_template(self, job, nworkers):
+        """A process that, after its own job, stays alive and forks workers on request (ids from 100: it is not one
+        of the interleaved processes)."""
+        t = Proc(100 + len(self.templates), job, self.gate_root, self.seed_hex, nworkers=nworkers)
+        self.templates.append(t)
+        self._run_until_parked(t)
+        return t
+
+    def fork_from(self, template, job):
+        assert template.state == "forkserver", template.state
+        p = Proc(len(self.procs), job, self.gate_root, self.seed_hex, template=template)
+        self.procs.append(p)
+        self._run_until_parked(p)
         return p
 
     def _note_fault(self, k):
@@ -125,7 +195,14 @@ class Sim:
                 else:
                     self.trace.append([self.seq, p.id, ek, payload])
                 continue
+            if kind == "hello":
+                p.foreign_pid = msg[1]
+                continue
+            if kind == "forkserver":
+                p.state = "forkserver"
+                return
             if kind == "done":
+                p.foreign_pid = None
                 p.state = "done"
                 p.reap()
                 return
@@ -177,6 +254,9 @@ class Sim:
         return n
 
     def close(self):
-        for p in self.procs:
+        for p in reversed(self.procs):
             if p.state in ("parked", "running"):
                 p.kill()
+        for t in self.templates:
+            if t.state in ("parked", "running", "forkserver"):
+                t.kill()
